@@ -473,3 +473,26 @@ def bounded(ctx):
     ctx.add_bounded("crystal.Crystal.unit_cell_atoms/bounded/exact_orbit", f"{len(todo)} settings ({'seeded sample incl. trigonal/hexagonal/cubic' if ctx.tier == 'quick' else 'all 530'}) x general positions "
                     "(inside and outside the cell) + exact special positions with fractional occupancies, each also with rounding-level noise (a few 1e-16) on the given coordinates, compared with an exact rational orbit", evals, nsites, fails,
                     rule="sites checked (distinct orbits)")
+
+    # coordinates handed over as Python ints / an integer array (e.g. a site at the origin written [[0, 0, 0]]): the images must not be truncated
+    from chmpy.crystal import Crystal, UnitCell, SpaceGroup, AsymmetricUnit
+    from chmpy import Element
+    fails2, ev2 = [], 0
+    cell = UnitCell.from_lengths_and_angles([7.1, 8.3, 9.7], [1.3, 1.45, 1.6])
+    for number, choice in [s_ for s_ in todo if s_[0] in (2, 5, 14, 62, 146, 148, 167, 194, 221, 225, 227, 229, 230)] + [(225, ""), (229, ""), (62, ""), (148, "H")]:
+        sg = SpaceGroup(number, choice=choice)
+        codes = [int(s_.integer_code) for s_ in sg.symmetry_operations]
+        for site in ([0, 0, 0], [1, 0, 0], [0, 1, -1]):
+            want = len(exact_orbit(codes, tuple(Fraction(v) for v in site)))
+            for arr in (np.array([site]), np.array([site], dtype=np.int32)):
+                ev2 += 1
+                try:
+                    got = len(Crystal(cell, sg, AsymmetricUnit([Element["Cu"]], arr)).unit_cell_atoms()["element"])
+                    ref = len(Crystal(cell, sg, AsymmetricUnit([Element["Cu"]], arr.astype(float))).unit_cell_atoms()["element"])
+                except Exception as e:  # noqa
+                    got, ref = repr(e)[:120], None
+                if (got != want or ref != want) and len(fails2) < 2:
+                    fails2.append({"input": {"setting": f"{number}:{choice}", "site": site, "dtype": str(arr.dtype)}, "observed": {"atoms": got, "with_float_coordinates": ref, "distinct_images": want},
+                                   "clause": "a site given with integer-typed coordinates has the same images as with float coordinates", "key": "integer_coordinates"})
+    ctx.add_bounded("crystal.Crystal.unit_cell_atoms/bounded/integer_typed_coordinates", "sites (0,0,0), (1,0,0), (0,1,-1) given as int64 / int32 arrays in centred and primitive settings: atom count equals the "
+                    "number of distinct images", ev2, ev2, fails2, rule="(setting, site, dtype)")
